@@ -390,6 +390,31 @@ func (t *test) emit(tr *vh.Trace, stats map[string]int) {
 		addExtra("ifassign", litMask(true), run("function () {\n"+pre.String()+body+"}", nil))
 		addExtra("ifassign-par", litMask(false), run("function ("+allParams+") {\n"+body+"}", vals))
 	}
+	if ntests%2 == 0 {
+		// mod: the first operand is a local that is assigned a different constant first and
+		// then modified inside a block / branch / try / loop, so it must NOT be propagated;
+		// the other operands are single-assignment locals
+		k0 := "123456"
+		if t.args[0].lit == k0 {
+			k0 = "\"q\""
+		}
+		a, k := varNames[0], t.args[0].lit
+		mods := []struct{ name, code string }{
+			{"mod-block", a + " = " + k0 + "\nblk = { " + a + " = " + k + " }\nblk()\n"},
+			{"mod-if", a + " = " + k0 + "\nif (" + a + " is " + a + ")\n{ " + a + " = " + k + " }\n"},
+			{"mod-try", a + " = " + k0 + "\ntry { " + a + " = " + k + "\nthrow \"x\" } catch { }\n"},
+			{"mod-for", a + " = " + k0 + "\nfor (i = 0; i < 2; i++)\n{ " + a + " = " + k + " }\n"},
+			{"mod-param-block", "blk = {|x| " + a + " = x }\n" + a + " = " + k0 + "\nblk(" + k + ")\n"},
+		}
+		m := mods[(ntests/2)%len(mods)]
+		var rest strings.Builder
+		for i := 1; i < n; i++ {
+			fmt.Fprintf(&rest, "%s = %s\n", varNames[i], t.args[i].lit)
+		}
+		lm := litMask(true)
+		lm[0] = false
+		addExtra(m.name, lm, run(src("", m.code+rest.String(), parText), nil))
+	}
 	// se: parameters are read through a block that logs the read, literals stay literals:
 	// folding must not change which operands are evaluated (side effects)
 	ses := []any{}
